@@ -1332,7 +1332,11 @@ class _AlwaysSortable(object):
         self.value = value
 
     def sortable_value(self):
-        return (str(type(self)), id(self))
+        # Keys that cannot be compared with each other are grouped by the
+        # name of their type. Within a group they keep their insertion
+        # order, because sorting is stable.
+        key_type = type(self.value)
+        return (key_type.__module__, key_type.__qualname__)
 
     def __lt__(self, other):
         try:
